@@ -5,6 +5,7 @@ from vf.props.progbase import ProgProp
 class C02(ProgProp):
     id = "C02"
     use_asm = True
+    corpus_aspects = ("tiling", "decode")
     aspects = ("tiling", "decode")
     rule = ("case = (bytecode version, program) from G-PROG / stdlib sample (2.7, 3.6-3.13), every code object "
             "of it; oracle = intrinsic tiling (first offset 0, next = previous + width, end = len(co_code), "
